@@ -140,7 +140,8 @@ OneLineFo(fo) == IF fo.L > 0 \/ fo.startup \/ fo.daily THEN fo ELSE [fo EXCEPT !
 
 OneLineObligations(hasPath, msgs, out) ==
     /\ Len(out.stderr) = Len(msgs) /\ out.stdout = <<>>
-    /\ \A i \in 1..Len(msgs) : PrettyShape(StripAnsi(out.stderr[i]), msgs[i])
+    \* (a message text may carry colour codes of its own: stripping the line strips those as well)
+    /\ \A i \in 1..Len(msgs) : PrettyShape(StripAnsi(out.stderr[i]), [msgs[i] EXCEPT !.text = StripAnsi(@)])
     /\ out.fileExists = hasPath
     /\ hasPath => FileShape(OneLineFo(out.fopt), Len(msgs), out,
                             LAMBDA line, j : line = StripAnsi(out.stderr[j]) /\ ~Contains(line, <<27>>))
